@@ -24,7 +24,7 @@ From Coq Require Import ZArith QArith List Bool Lia Sorting.Permutation.
 Import ListNotations.
 From Osmo Require Import Base.DecModel CL.TickMath CL.CLMath CL.CLPool CL.CLSwap CL.CLStep CL.Ideal
   CLR.Accum CLR.Rewards CLR.RSwap CLR.RStep C07.Base C07.LP C08.Proj C08.Dom
-  C08.PaidOps C08.PaidHist C08.Inc C08.IncHist C08.ClaimInv C01.Funds C01.Exact C01.Solvent C01.SwapPath C01.Potential C01.SwapSolvent C01.History C01.Full C01.SpreadAcc C01.Exit C01.ExitHist.
+  C08.PaidOps C08.PaidHist C08.Inc C08.IncHist C08.ClaimInv C08.ClaimIncTime C01.Funds C01.Exact C01.Solvent C01.SwapPath C01.Potential C01.SwapSolvent C01.History C01.Full C01.SpreadAcc C01.Exit C01.ExitHist.
 Open Scope Z_scope.
 
 (* ==== the full statement (DESIGN.md section 5, C01) ==== *)
@@ -193,6 +193,20 @@ Theorem C01_spread_covered_total_partial : forall sp spf ssc isc users t ops, 0 
   spread_covered rs.
 Proof. exact spread_covered_total. Qed.
 Print Assumptions C01_spread_covered_total_partial.
+
+(* the incentive claims likewise: in every state reachable by a history without negative time steps all incentive claim queries succeed
+   and their sum (collected + forfeitable) is covered by the incentive account - PARTIAL only in the explicit arithmetic hypotheses: the
+   rounding budget and the LegacyDec range [inc_range_ok] (C08/ClaimIncTime.v).  (The exact "+ remaining emission" term of Full.inc_covered
+   is still only bounded by < balance + 1 token: C08_incentives_and_remaining_covered.) *)
+Theorem C01_inc_claims_covered_total_partial : forall sp spf ssc isc users t ops, 0 < sp -> 0 <= spf <= 500000000000000000 -> P18 <= isc ->
+  let rs0 := rinit sp spf ssc isc users t in
+  let rs := rrun rs0 ops in
+  hist_time_ok ops ->
+  (hist_icost rs0 ops + Z.of_nat (length (s_pos (r_base rs)))) * Z.of_nat NU < 2 * isc ->
+  (forall p, In p (s_pos (r_base rs)) -> inc_range_ok rs p) ->
+  exists c, inc_claims rs = Some c /\ fst c <= fst (b_inc (s_bank (r_base rs))) /\ snd c <= snd (b_inc (s_bank (r_base rs))).
+Proof. exact inc_claims_covered_total. Qed.
+Print Assumptions C01_inc_claims_covered_total_partial.
 
 (* ... hence every single collect of spread rewards is affordable, in any order (PARTIAL: same hypotheses) *)
 Theorem C01_each_spread_claim_affordable_partial : forall sp spf ssc isc users t ops d q, 0 < sp -> 0 <= spf <= 500000000000000000 -> 0 < ssc ->
